@@ -11,7 +11,7 @@ import (
 
 func init() {
 	register(&Rule{
-		ID: "C10.loop-agreement", Prop: "C10", Floor: 2, Also: []string{"C04"},
+		ID: "C10.loop-agreement", Prop: "C10", Floor: 2, Also: []string{"C04", "C11", "C12"},
 		Doc: "in returnTypeForValues and Call the positional and the variadic argument loops read the same Parameter flags, call the same functions and have the same exits; together they honour AllowMarked, AllowNull, AllowDynamicType and AllowUnknown",
 		Run: runLoopAgreement,
 	})
@@ -36,7 +36,7 @@ func init() {
 		Run: runRefineApplied,
 	})
 	register(&Rule{
-		ID: "C04.call-marks", Prop: "C04", Floor: 5, Also: []string{"C10"},
+		ID: "C04.call-marks", Prop: "C04", Floor: 5, Also: []string{"C10", "C11", "C12"},
 		Doc: "Function.Call: under !AllowMarked the argument is replaced by the result of UnmarkDeep (never a shallow Unmark) and its marks are appended to the result marks in the same block; every value-producing return passes through WithMarks(resultMarks...); returnTypeForValues deep-unmarks the same parameters before Spec.Type",
 		Run: runCallMarks,
 	})
